@@ -1,5 +1,6 @@
 import PercevalModel.Proto
 import PercevalModel.Model.C17
+import PercevalModel.Model.C17X
 
 /-
   C17 driver.  Two requests:
@@ -11,6 +12,12 @@ import PercevalModel.Model.C17
   r    = ["s", "<status string>"] | ["h", code] | ["c"]           (status request)
   h    = ["ok"] | ["h", code] | ["c"]                             (create / cancel / rerun request)
   rh   = ["ok"] | ["empty"] | ["missing"] | ["h", code] | ["c"]   (results request)
+    {"fixed": b, "t0": now, "name": s, "fops": [[now, fop], …]}   -> {"outs": [s₁, …]}   one history of
+        the FULL machine (`Model/C17X.lean`: time fields, name, _to_dict/_from_dict/from_id, execute_sync)
+  fop  = op with status answers ["s", "<status>", [progress, creation|null, start|null, duration|null]]
+         | ["td"] | ["ro"] | ["rs", r] | ["n", "<name>"|null] | ["y", h, [r, …], rh, d]
+    {"fixed": b, "delay": D, "syncclock": {"d": d, "now": t, "fuel": n, "rs": [r, …]}} -> {"outs": […], "end": e}
+        the clocked polling loop of execute_sync on a job just sent at time t (previous refresh 0)
   Identifiers, message tokens and result tokens are not transmitted: the step at (1-based) position k
   of a history uses k for all three (the harness' fake server does the same).
 -/
@@ -164,8 +171,109 @@ def runClock (fixed : Bool) (delay : Int) (reads : Array Json) : Except String (
     k := k + 1
   return outs
 
+/-! ### the full machine -/
+
+def optInt (j : Json) : Except String (Option Int) :=
+  match j with
+  | .null => pure none
+  | v => do return some (← v.getInt?)
+
+def parseBody (j : Json) : Except String Body := do
+  let a ← j.getArr?
+  return ⟨← argNat a 0, ← optInt (← arg a 1), ← optInt (← arg a 2), ← optInt (← arg a 3)⟩
+
+def parseRespF (k : Nat) (j : Json) : Except String RespF := do
+  let (t, a) ← tag j
+  match t with
+  | "s" => return .status (← argStr a 1) k (← parseBody (← arg a 2))
+  | "h" => return .http (← argNat a 1)
+  | "c" => return .conn
+  | _ => throw s!"bad status response {t}"
+
+def parseFOp (j : Json) (k : Nat) : Except String FOp := do
+  let (t, a) ← tag j
+  match t with
+  | "x" => return .execute (← parseH k (← arg a 1))
+  | "p" => return .poll (← parseView (← argNat a 1)) (← parseRespF k (← arg a 2))
+  | "c" => return .cancel (← parseRespF k (← arg a 1)) (← parseH k (← arg a 2))
+  | "r" => return .rerun (← parseRespF k (← arg a 1)) (← parseRespF k (← arg a 2)) (← parseH k (← arg a 3))
+             (← (← arg a 4).getBool?)
+  | "g" => return .getResults (← parseRespF k (← arg a 1)) (← parseRespF k (← arg a 2)) (← parseRH k (← arg a 3))
+  | "td" => return .toDict
+  | "ro" => return .reopen
+  | "rs" => return .resume (← parseRespF k (← arg a 1))
+  | "n" =>
+    match ← arg a 1 with
+    | .str s => return .setName (.str s)
+    | .null => return .setName .other
+    | _ => throw "bad name"
+  | "y" =>
+    let rs ← (← (← arg a 2).getArr?).toList.mapM (parseRespF k)
+    return .sync (← parseH k (← arg a 1)) rs (← parseRH k (← arg a 3)) (← (← arg a 4).getInt?)
+  | _ => throw s!"bad full op {t}"
+
+def optStr : Option Int → String
+  | some x => toString x
+  | none => "N"
+
+def finStr : FFin → String
+  | .pending => "pending"
+  | .res r => resStr r
+  | .typeError => "exc:TypeError"
+  | .keyError => "exc:KeyError"
+
+def fresStr : FRes → String
+  | .base r => resStr r
+  | .typeError => "exc:TypeError"
+  | .keyError => "exc:KeyError"
+  | .dict d => s!"dict:{idStr d.id}:{d.status.getD "N"}:{d.body.getD "-"}"
+  | .sync p s f => s!"sync:{p}:{s}:{finStr f}"
+
+def rtStr : RT → String
+  | .val x => toString x
+  | .assertion => "AssertionError"
+  | .typeError => "TypeError"
+
+def foutStr (f : FJob) (o : FOut) : String :=
+  fresStr o.res ++ "|" ++ idStr f.job.id ++ "|" ++ shown f.job ++ "|" ++ ",".intercalate (o.calls.map callStr)
+    ++ "|" ++ f.name ++ "|" ++ s!"{f.ts.init},{optStr f.ts.runStart},{optStr f.ts.duration},{f.ts.progress}"
+    ++ "|" ++ rtStr (runningTime f.job.status f.ts)
+
+def runFOps (fixed : Bool) (t0 : Int) (name : String) (ops : Array Json) : Except String (Array String) := do
+  let mut f := finit t0 name
+  let mut outs : Array String := #[]
+  let mut k := 1
+  for oj in ops do
+    let a ← oj.getArr?
+    let now ← (← arg a 0).getInt?
+    let op ← parseFOp (← arg a 1) k
+    let (f', o) := fstep fixed f ⟨now, op⟩
+    outs := outs.push (foutStr f' o)
+    f := f'
+    k := k + 1
+  return outs
+
+def endStr : LoopEnd → String
+  | .complete => "complete" | .raised => "raised" | .pending => "pending"
+
+def runSyncClock (fixed : Bool) (delay : Int) (j : Json) : Except String Json := do
+  let d ← intOf j "d"
+  let now ← intOf j "now"
+  let fuel ← natOf j "fuel"
+  let rs ← (← arrOf j "rs").toList.mapM (parseResp 2)
+  let (t, outs, e) := syncLoopAt fixed delay d fuel ⟨born 1, 0⟩ now rs
+  let _ := t
+  return Json.mkObj [("outs", Json.arr (outs.toArray.map fun o =>
+                        Json.str (resStr o.res ++ "|" ++ ",".intercalate (o.calls.map callStr)))),
+                     ("end", Json.str (endStr e))]
+
 def handleE (j : Json) : Except String Json := do
   let fixed ← boolOf j "fixed"
+  if let .ok fops := arrOf j "fops" then
+    let outs ← runFOps fixed (← intOf j "t0") (← strOf j "name") fops
+    return Json.mkObj [("outs", Json.arr (outs.map Json.str))]
+  if let .ok sc := j.getObjVal? "syncclock" then
+    return ← runSyncClock fixed (← intOf j "delay") sc
   if let .ok reads := arrOf j "clock" then
     let delay ← intOf j "delay"
     let outs ← runClock fixed delay reads
